@@ -40,7 +40,7 @@ type topo struct {
 
 func isConn(id string) bool {
 	switch typeOf(id) {
-	case "fwd", "conv", "l2m", "forward":
+	case "fwd", "conv", "l2m", "forward", "asym":
 		return true
 	}
 	return false
@@ -69,7 +69,7 @@ func genTopo(tp *simkit.Tape, small bool) topo {
 	recvPool := []string{"rcv/1", "rcv/2", "shr/1"}
 	procPool := []string{"proc/1", "proc/2", "ropr/1"}
 	expPool := []string{"exp/1", "exp/2", "mexp/1"}
-	connPool := []string{"fwd/1", "conv/1", "conv/2", "l2m/1", "forward/1"}
+	connPool := []string{"fwd/1", "conv/1", "conv/2", "l2m/1", "forward/1", "asym/1", "asym/1"}
 	useConn := tp.Chance(2, 3)
 	names := "abcde"
 	for i := 0; i < np; i++ {
@@ -82,9 +82,14 @@ func genTopo(tp *simkit.Tape, small bool) topo {
 	}
 	if useConn && np >= 2 {
 		// wire connectors between pipelines; mostly forward edges (i -> j, i<j) so that most topologies are valid
-		nc := tp.Range(1, 3)
+		nc := tp.Range(1, 4)
+		var prev string
 		for k := 0; k < nc; k++ {
 			c := connPool[tp.Draw(len(connPool))]
+			if prev != "" && tp.Chance(1, 3) {
+				c = prev // the same connector wired between several pipeline pairs
+			}
+			prev = c
 			i := tp.Draw(np)
 			j := tp.Draw(np)
 			if i == j {
@@ -548,7 +553,7 @@ func kindOfKey(k string) string {
 }
 
 var svcReal = []string{"service.New / Start / Shutdown", "service/internal/graph (node creation, edges, topological order, capabilities and fan-out nodes)", "service/internal/builders", "service/extensions (dependency order)", "internal/fanoutconsumer", "internal/sharedcomponent", "service/internal/status reporter", "service telemetry (logs off, metrics level none)"}
-var svcStub = []string{"leaf components: instrumented stub receivers, processors (mutating / read-only), exporters, connectors (forwarding, all-pairs converting, logs->metrics only) and extensions, created through real factories"}
+var svcStub = []string{"leaf components: instrumented stub receivers, processors (mutating / read-only), exporters, connectors (forwarding, all-pairs converting, logs->metrics only, an asymmetric several-pairs matrix) and extensions, created through real factories"}
 
 var HarnessC09 = simkit.Harness{
 	Prop: "C09", Name: "svc/c09", Run: runC09, StepTimeout: 20e9, Real: svcReal, Stub: svcStub, HashInsensitive: true,
